@@ -150,7 +150,7 @@ pub fn gen_mode(o: &Opts, mode: u32, sink: &mut dyn FnMut(Vec<i64>, String)) {
             for (ci, _) in (0..3).enumerate() {
                 let (da, sa) = cfg_for(kind, ci as u64);
                 for pgn in PGNS {
-                    let dests: Vec<u32> = if (pgn >> 8) & 0xff < 240 { vec![da as u32, sa as u32, 0xff, 0x33] } else { vec![0] };
+                    let dests: Vec<u32> = if (pgn >> 8) & 0xff < 240 { vec![da as u32, sa as u32, 0xff, 0x33, 0xfe, 0x00] } else { vec![0] };
                     for ps in dests {
                         for src in (0..256u32).step_by(src_step) {
                             if !(o.tier_thorough) && mode == 0 && ci > 0 && src % 4 != 0 && src as i64 != da && src as i64 != sa { continue; }
